@@ -844,7 +844,8 @@ class Exec:
         # every anchor the contract hangs ghost code, hints or lemmas on must exist in the code: a statement that was
         # renamed or restructured away silently takes its ghost updates with it, and the obligations that then fail would
         # speak about the missing ghost state, not about the code
-        wanted = {a for (a, *_r) in list(c.hints) + list(c.late_hints) + list(c.lemmas) + list(c.ghost) + list(c.assumes)}
+        wanted = {a for (a, *_r) in list(c.hints) + list(c.late_hints) + list(c.lemmas) + list(c.ghost) + list(c.assumes)
+                  + list(getattr(c, "asserts", []))}
         # how many statements of the function carry each anchor (compared with the baseline by the check: when one of two
         # occurrences is rewritten, the anchor still fires at the other one, but the ghost updates at the first are gone)
         self.anchor_counts = {}
@@ -979,6 +980,12 @@ class Exec:
                 continue
             for item in fnh(self.ns(st), self.ns(self.old)):
                 self.oblige(st, "hint", anchor, item[0], item[1], using=item[2] if len(item) > 2 else None)
+        for (a, fnh) in getattr(c, "asserts", []):
+            if a != anchor:
+                continue
+            for item in fnh(self.ns(st), self.ns(self.old)):
+                # an in-line assertion of the contract (the property stated at this program point)
+                self.oblige(st, "assert", anchor, item[0], item[1], using=item[2] if len(item) > 2 else None)
         for (a, src) in c.ghost:
             if a != anchor:
                 continue
@@ -1049,6 +1056,7 @@ class Exec:
     def has_anchor(self, a):
         c = self.contract
         return any(x[0] == a for x in c.lemmas) or any(x[0] == a for x in c.hints) or any(x[0] == a for x in c.ghost) \
+            or any(x[0] == a for x in getattr(c, "asserts", [])) \
             or any(x[0] == a for x in getattr(c, "assumes", [])) or any(x[0] == a for x in getattr(c, "late_hints", []))
 
     def stmt_Pass(self, st, stmt):
